@@ -44,12 +44,15 @@ Proof. unfold conv8_ascii, conv8, lane4, zlen. rewrite map_length. reflexivity. 
 (* ---- integers: footprint within the reservation, returned text within the footprint *)
 Definition fits (k : Z) (f : fmt) : Prop := 0 <= zlen (f_out f) <= f_foot f /\ f_foot f <= k.
 
-Lemma fmt_u32_fits_proof : forall v, fits kBytes_u32 (fmt_u32 v).
+Lemma fits_mono k k' f : fits k f -> k <= k' -> fits k' f.
+Proof. unfold fits. intros [H1 H2] H. lia. Qed.
+
+Lemma fmt_u32_tight : forall v, fits 10 (fmt_u32 v).
 Proof.
   intros v. unfold fits, fmt_u32.
-  destruct (v <? u32_small_limit); [pose proof (small4_len v); cbv zeta; cbn [f_out f_foot]; unfold kBytes_u32; lia|].
-  destruct (v <? u32_mid_limit); [pose proof (mid8_len v); cbv zeta; cbn [f_out f_foot]; unfold kBytes_u32; lia|].
-  cbv zeta; cbn [f_out f_foot]. rewrite zlen_app, conv8_ascii_len. unfold store_l64, kBytes_u32.
+  destruct (v <? u32_small_limit); [pose proof (small4_len v); cbv zeta; cbn [f_out f_foot]; lia|].
+  destruct (v <? u32_mid_limit); [pose proof (mid8_len v); cbv zeta; cbn [f_out f_foot]; lia|].
+  cbv zeta; cbn [f_out f_foot]. rewrite zlen_app, conv8_ascii_len. unfold store_l64.
   destruct (v / 100000000 >=? 10); unfold zlen; simpl length; lia.
 Qed.
 
@@ -68,18 +71,18 @@ Proof.
   destruct (a <? 1000) eqn:E3; unfold zlen; simpl; lia.
 Qed.
 
-Lemma fmt_u64_fits_proof : forall v, fits kBytes_u64 (fmt_u64 v).
+Lemma fmt_u64_tight : forall v, fits 20 (fmt_u64 v).
 Proof.
   intros v. unfold fits, fmt_u64.
   destruct (v <? u64_low_limit).
-  - destruct (v <? u64_small_limit); [pose proof (small4_len v)|pose proof (mid8_len v)]; cbv zeta; cbn [f_out f_foot]; unfold kBytes_u64; lia.
+  - destruct (v <? u64_small_limit); [pose proof (small4_len v)|pose proof (mid8_len v)]; cbv zeta; cbn [f_out f_foot]; lia.
   - destruct (v <? u64_mid_limit).
     + cbv zeta; cbn [f_out f_foot].
       pose proof (skipn_zlen (leading_zeros (conv8_ascii (v / 100000000) ++ conv8_ascii (v mod 100000000)) 15)
                              (conv8_ascii (v / 100000000) ++ conv8_ascii (v mod 100000000))) as H.
-      rewrite zlen_app, !conv8_ascii_len in H. unfold store_u128, kBytes_u64. lia.
+      rewrite zlen_app, !conv8_ascii_len in H. unfold store_u128. lia.
     + cbv zeta; cbn [f_out f_foot]. rewrite !zlen_app, !conv8_ascii_len.
-      pose proof (u64_pre_len (v / 10000000000000000)) as [H _]. cbv zeta in H. unfold store_u128, kBytes_u64. lia.
+      pose proof (u64_pre_len (v / 10000000000000000)) as [H _]. cbv zeta in H. unfold store_u128. lia.
 Qed.
 
 (* a magnitude below 10^19 (every int64) needs at most 3 + 16 bytes *)
@@ -98,39 +101,37 @@ Proof.
       assert (v / 10000000000000000 < 1000) as Ha by lia. specialize (H2 Ha). unfold store_u128. lia.
 Qed.
 
-Lemma fmt_i32_fits_proof : forall v, fits kBytes_i32 (fmt_i32 v).
+Lemma fmt_i32_tight : forall v, fits 11 (fmt_i32 v).
 Proof.
   intros v. unfold fmt_i32. destruct (v <? 0).
-  - pose proof (fmt_u32_fits_proof ((- v) mod 4294967296)) as [H1 H2]. unfold fits. cbn [f_out f_foot]. rewrite zlen_cons.
-    unfold kBytes_u32 in H2. unfold kBytes_i32. lia.
-  - pose proof (fmt_u32_fits_proof (v mod 4294967296)) as [H1 H2]. unfold fits. unfold kBytes_u32 in H2. unfold kBytes_i32. lia.
+  - pose proof (fmt_u32_tight ((- v) mod 4294967296)) as [H1 H2]. unfold fits. cbn [f_out f_foot]. rewrite zlen_cons. lia.
+  - pose proof (fmt_u32_tight (v mod 4294967296)) as [H1 H2]. unfold fits. lia.
 Qed.
 
-Lemma fmt_i64_fits_proof : forall v, -9223372036854775808 <= v < 9223372036854775808 -> fits kBytes_i64 (fmt_i64 v).
+Lemma fmt_i64_tight : forall v, -9223372036854775808 <= v < 9223372036854775808 -> fits 20 (fmt_i64 v).
 Proof.
   intros v Hv. unfold fmt_i64. destruct (v <? 0) eqn:E.
   - assert ((- v) mod 18446744073709551616 = - v) as Hm by (apply Z.mod_small; lia). rewrite Hm.
-    pose proof (fmt_u64_fits_19 (- v) ltac:(lia)) as [H1 H2]. unfold fits. cbn [f_out f_foot]. rewrite zlen_cons. unfold kBytes_i64. lia.
-  - pose proof (fmt_u64_fits_proof (v mod 18446744073709551616)) as [H1 H2]. unfold fits. unfold kBytes_u64 in H2. unfold kBytes_i64. lia.
+    pose proof (fmt_u64_fits_19 (- v) ltac:(lia)) as [H1 H2]. unfold fits. cbn [f_out f_foot]. rewrite zlen_cons. lia.
+  - assert (v mod 18446744073709551616 = v) as Hm by (apply Z.mod_small; lia). rewrite Hm.
+    pose proof (fmt_u64_fits_19 v ltac:(lia)) as [H1 H2]. unfold fits. lia.
 Qed.
 
-Lemma fmt_u16_fits_proof : forall v, 0 <= v < 65536 -> fits kBytes_u16 (fmt_u16 v).
+Lemma fmt_u16_tight : forall v, 0 <= v < 65536 -> fits 5 (fmt_u16 v).
 Proof.
   intros v Hv. unfold fits, fmt_u16, fmt_u32.
-  destruct (v <? u32_small_limit); [pose proof (small4_len v); cbv zeta; cbn [f_out f_foot]; unfold kBytes_u16; lia|].
+  destruct (v <? u32_small_limit); [pose proof (small4_len v); cbv zeta; cbn [f_out f_foot]; lia|].
   replace (v <? u32_mid_limit) with true by (unfold u32_mid_limit; lia).
-  simpl. rewrite (mid8_len_exact v) by lia. unfold kBytes_u16. lia.
+  cbv zeta; cbn [f_out f_foot]. rewrite (mid8_len_exact v) by lia. lia.
 Qed.
 
-Lemma fmt_i16_fits_proof : forall v, -32768 <= v < 32768 -> fits kBytes_i16 (fmt_i16 v).
+Lemma fmt_i16_tight : forall v, -32768 <= v < 32768 -> fits 6 (fmt_i16 v).
 Proof.
   intros v Hv. unfold fmt_i16, fmt_i32. destruct (v <? 0) eqn:E.
   - assert ((- v) mod 4294967296 = - v) as Hm by (apply Z.mod_small; lia). rewrite Hm.
-    pose proof (fmt_u16_fits_proof (- v) ltac:(lia)) as [H1 H2]. unfold fmt_u16 in *. unfold fits. cbn [f_out f_foot]. rewrite zlen_cons.
-    unfold kBytes_u16 in H2. unfold kBytes_i16. lia.
+    pose proof (fmt_u16_tight (- v) ltac:(lia)) as [H1 H2]. unfold fmt_u16 in *. unfold fits. cbn [f_out f_foot]. rewrite zlen_cons. lia.
   - assert (v mod 4294967296 = v) as Hm by (apply Z.mod_small; lia). rewrite Hm.
-    pose proof (fmt_u16_fits_proof v ltac:(lia)) as [H1 H2]. unfold fmt_u16 in *. unfold fits.
-    unfold kBytes_u16 in H2. unfold kBytes_i16. lia.
+    pose proof (fmt_u16_tight v ltac:(lia)) as [H1 H2]. unfold fmt_u16 in *. unfold fits. lia.
 Qed.
 
 Lemma drop_zero_nibbles_len l : (length (drop_zero_nibbles l) <= length l)%nat.
@@ -139,18 +140,18 @@ Proof.
   destruct x; simpl; lia.
 Qed.
 
-Lemma fmt_ptr_fits_proof : forall p, fits kBytes_ptr (fmt_ptr p).
+Lemma fmt_ptr_tight : forall p, fits (2 + pointer_size * 2) (fmt_ptr p).
 Proof.
   intros p. unfold fits, fmt_ptr. cbv zeta. cbv zeta; cbn [f_out f_foot]. rewrite !zlen_cons.
   destruct (p =? 0).
-  - unfold zlen, kBytes_ptr, pointer_size. simpl. lia.
+  - unfold zlen, pointer_size. simpl. lia.
   - unfold zlen. rewrite map_length. pose proof (drop_zero_nibbles_len (nibbles p)) as H.
-    unfold nibbles in H at 2. rewrite map_length, seq_length in H. unfold kBytes_ptr, pointer_size in *.
+    unfold nibbles in H at 2. rewrite map_length, seq_length in H. unfold pointer_size in *.
     change (Z.to_nat (8 * 2)) with 16%nat in H. lia.
 Qed.
 
-Lemma fmt_bool_fits_proof : forall b, fits kBytes_bool (fmt_bool b).
-Proof. intros b. unfold fits, fmt_bool, zlen, kBytes_bool. simpl. lia. Qed.
+Lemma fmt_bool_tight : forall b, fits 1 (fmt_bool b).
+Proof. intros b. unfold fits, fmt_bool, zlen. simpl. lia. Qed.
 
 (* ---- double / float layout *)
 
@@ -203,41 +204,59 @@ Qed.
 Lemma digits_ok_len m ds : digits_ok m ds = true -> 1 <= zlen ds <= m.
 Proof. unfold digits_ok. intros H. apply andb_true_iff in H. destruct H as [H _]. lia. Qed.
 
-Lemma fmt_double_fits_proof : forall d, dvalue_ok_double d = true -> fits kBytes_double (fmt_double d).
+Lemma fmt_double_tight : forall d, dvalue_ok_double d = true -> fits 26 (fmt_double d).
 Proof.
   intros d Hok. unfold fits, fmt_double. cbv zeta; cbn [f_out f_foot]. unfold string_builder_terminator.
   pose proof (zlen_nonneg (to_shortest_chars d)). split; [lia|].
   destruct d as [neg| |sign ds dp]; simpl to_shortest_chars.
-  - destruct neg; unfold zlen, kBytes_double; simpl; lia.
-  - unfold zlen, kBytes_double; simpl; lia.
+  - destruct neg; unfold zlen; simpl; lia.
+  - unfold zlen; simpl; lia.
   - simpl in Hok. apply andb_true_iff in Hok. destruct Hok as [Hok Hdp2]. apply andb_true_iff in Hok. destruct Hok as [Hds Hdp1].
     apply digits_ok_len in Hds. unfold kBase10MaximalLength in Hds.
     rewrite zlen_app. assert (zlen (if sign then [45] else []) <= 1) as Hs by (destruct sign; unfold zlen; simpl; lia).
-    unfold decimal_in_shortest_low, decimal_in_shortest_high, kBytes_double.
+    unfold decimal_in_shortest_low, decimal_in_shortest_high.
     destruct ((-6 <=? dp - 1) && (dp - 1 <? 21)) eqn:E.
     + pose proof (create_decimal_len ds dp ltac:(lia)). lia.
     + pose proof (create_exponential_len ds (dp - 1) ltac:(lia) ltac:(lia)). lia.
 Qed.
 
-Lemma fmt_float_fits_proof : forall d, dvalue_ok_float d = true -> fits kBytes_float (fmt_double d).
+Lemma fmt_float_tight : forall d, dvalue_ok_float d = true -> fits 23 (fmt_double d).
 Proof.
   intros d Hok. unfold fits, fmt_double. cbv zeta; cbn [f_out f_foot]. unfold string_builder_terminator.
   pose proof (zlen_nonneg (to_shortest_chars d)). split; [lia|].
   destruct d as [neg| |sign ds dp]; simpl to_shortest_chars.
-  - destruct neg; unfold zlen, kBytes_float; simpl; lia.
-  - unfold zlen, kBytes_float; simpl; lia.
+  - destruct neg; unfold zlen; simpl; lia.
+  - unfold zlen; simpl; lia.
   - simpl in Hok. apply andb_true_iff in Hok. destruct Hok as [Hok Hdp2]. apply andb_true_iff in Hok. destruct Hok as [Hds Hdp1].
     apply digits_ok_len in Hds.
     rewrite zlen_app. assert (zlen (if sign then [45] else []) <= 1) as Hs by (destruct sign; unfold zlen; simpl; lia).
-    unfold decimal_in_shortest_low, decimal_in_shortest_high, kBytes_float.
+    unfold decimal_in_shortest_low, decimal_in_shortest_high.
     destruct ((-6 <=? dp - 1) && (dp - 1 <? 21)) eqn:E.
     + pose proof (create_decimal_len ds dp ltac:(lia)). lia.
     + pose proof (create_exponential_len ds (dp - 1) ltac:(lia) ltac:(lia)). lia.
 Qed.
 
-(* the exact maxima: 26 for double, 23 for float (both attained, see the Examples in Properties_C20.v) *)
-Lemma fmt_double_max_26 : forall d, dvalue_ok_double d = true -> f_foot (fmt_double d) <= 26.
-Proof. intros d H. pose proof (fmt_double_fits_proof d H) as [_ H2]. unfold kBytes_double in H2. exact H2. Qed.
+(* ---- the reservations in the headers are at least the tight bounds *)
+Lemma fmt_u32_fits_proof : forall v, fits kBytes_u32 (fmt_u32 v).
+Proof. intros v. apply (fits_mono 10); [apply fmt_u32_tight|unfold kBytes_u32; lia]. Qed.
+Lemma fmt_u64_fits_proof : forall v, fits kBytes_u64 (fmt_u64 v).
+Proof. intros v. apply (fits_mono 20); [apply fmt_u64_tight|unfold kBytes_u64; lia]. Qed.
+Lemma fmt_i32_fits_proof : forall v, fits kBytes_i32 (fmt_i32 v).
+Proof. intros v. apply (fits_mono 11); [apply fmt_i32_tight|unfold kBytes_i32; lia]. Qed.
+Lemma fmt_i64_fits_proof : forall v, -9223372036854775808 <= v < 9223372036854775808 -> fits kBytes_i64 (fmt_i64 v).
+Proof. intros v H. apply (fits_mono 20); [apply fmt_i64_tight; exact H|unfold kBytes_i64; lia]. Qed.
+Lemma fmt_u16_fits_proof : forall v, 0 <= v < 65536 -> fits kBytes_u16 (fmt_u16 v).
+Proof. intros v H. apply (fits_mono 5); [apply fmt_u16_tight; exact H|unfold kBytes_u16; lia]. Qed.
+Lemma fmt_i16_fits_proof : forall v, -32768 <= v < 32768 -> fits kBytes_i16 (fmt_i16 v).
+Proof. intros v H. apply (fits_mono 6); [apply fmt_i16_tight; exact H|unfold kBytes_i16; lia]. Qed.
+Lemma fmt_ptr_fits_proof : forall p, fits kBytes_ptr (fmt_ptr p).
+Proof. intros p. apply (fits_mono (2 + pointer_size * 2)); [apply fmt_ptr_tight|unfold kBytes_ptr; lia]. Qed.
+Lemma fmt_bool_fits_proof : forall b, fits kBytes_bool (fmt_bool b).
+Proof. intros b. apply (fits_mono 1); [apply fmt_bool_tight|unfold kBytes_bool; lia]. Qed.
+Lemma fmt_double_fits_proof : forall d, dvalue_ok_double d = true -> fits kBytes_double (fmt_double d).
+Proof. intros d H. apply (fits_mono 26); [apply fmt_double_tight; exact H|unfold kBytes_double; lia]. Qed.
+Lemma fmt_float_fits_proof : forall d, dvalue_ok_float d = true -> fits kBytes_float (fmt_double d).
+Proof. intros d H. apply (fits_mono 23); [apply fmt_float_tight; exact H|unfold kBytes_float; lia]. Qed.
 
 (* ---- the in-place protocol of the stream *)
 
